@@ -64,8 +64,19 @@ func VerifC25_retry() {
 			if p == eventAt && event != 2 {
 				delivered = true
 				if event == 0 {
-					e.NotifyAcks([]int64{id})
+					// the ack may come in a batch behind an id nobody waits for (any more)
+					if verifrt.NondetBool("batch") {
+						stale := verifrt.NondetInt64("stale")
+						verifrt.Assume(stale != id)
+						e.NotifyAcks([]int64{stale, id})
+					} else {
+						e.NotifyAcks([]int64{id})
+					}
 					verifrt.Settle()
+					// an acknowledged request is not retransmitted, however long the result takes
+					before := len(sends)
+					verifrt.Advance(3 * interval)
+					verifrt.Assert(len(sends) == before, "C25.retry.nosendafterack")
 				}
 				_ = e.NotifyResult(id, &bin.Buffer{})
 				verifrt.Settle()
